@@ -18,6 +18,7 @@ import (
 	"context"
 	"errors"
 	"fmt"
+	"math"
 	"runtime"
 	"sync"
 	"sync/atomic"
@@ -146,8 +147,8 @@ type OnDemandBlockTaskPool struct {
 // queueSize 是队列大小，即最多有多少个任务在等待调度
 // 使用相应的Option选项可以动态扩展协程数
 func NewOnDemandBlockTaskPool(initGo int, queueSize int, opts ...option.Option[OnDemandBlockTaskPool]) (*OnDemandBlockTaskPool, error) {
-	if initGo < 1 {
-		return nil, fmt.Errorf("%w：initGo应该大于0", errInvalidArgument)
+	if initGo < 1 || initGo > math.MaxInt32 {
+		return nil, fmt.Errorf("%w：initGo应该大于0且不超过math.MaxInt32", errInvalidArgument)
 	}
 	if queueSize < 0 {
 		return nil, fmt.Errorf("%w：queueSize应该大于等于0", errInvalidArgument)
